@@ -48,10 +48,16 @@ CHECK_DEADLOCK FALSE
 """ % (lexset, maxlen, LEX_INV)
 
 
-def lexer_generate(run):
+def lexer_generate(run, prop=None):
     """Model-check machine L over the bounded families and return the list of generated case files."""
     files = []
-    if run.tier == "quick":
+    if prop == "C08" and run.tier == "quick":
+        plan = [("bytes", "AlphaA", 4), ("lexemes", "LexemesA", 3), ("lexemes", "LexemesBlk", 3), ("lexemes", "LexemesExpr", 3),
+                ("lexemes", "LexemesDir", 3)]
+    elif prop == "C08":
+        plan = [("bytes", "AlphaA", 5), ("bytes", "AlphaC", 5), ("lexemes", "LexemesA", 4), ("lexemes", "LexemesB", 4),
+                ("lexemes", "LexemesBlk", 4), ("lexemes", "LexemesExpr", 4), ("lexemes", "LexemesDir", 4)]
+    elif run.tier == "quick":
         plan = [("bytes", "AlphaA", 4), ("bytes", "AlphaB", 4), ("bytes", "AlphaC", 4), ("lexemes", "LexemesA", 3)]
     else:
         plan = [("bytes", "AlphaA", 5), ("bytes", "AlphaB", 5), ("bytes", "AlphaC", 5), ("lexemes", "LexemesA", 4),
@@ -117,7 +123,7 @@ def lexer_traces(run, prop):
 
 
 def lexer_check(run, prop, rule):
-    files = lexer_generate(run)
+    files = lexer_generate(run, prop)
     for f in files:
         run.replay("lex", f, prop=prop, name="lex-%s-%d" % (prop, files.index(f)))
         run.add_samples(f, 1)
@@ -149,9 +155,41 @@ def c19(run):
                        "more than two tokens")
 
 
+PARSER_CFG = """CONSTANTS
+  Inputs <- MCInputs
+  DevP2 <- DevP2Intended
+  MaxLex = %d
+  Emit_ = TRUE
+  LexSet = "%s"
+  defaultInitValue = 0
+SPECIFICATION Spec
+INVARIANTS ProgramOrErrors PrefixRejected CursorSane Gen
+PROPERTIES Termination
+CHECK_DEADLOCK FALSE
+"""
+
+
+def parser_model(run):
+    """Machine P (PlusCal): termination with fairness and no state constraint, ProgramOrErrors, PrefixRejected over every
+    lexeme sequence of the family; every input is then parsed by the real parser."""
+    plan = [("small", 3)] if run.tier == "quick" else [("small", 4), ("all", 3)]
+    sts = run.tlc_many([dict(module="MC_Parser", cfg=PARSER_CFG % (n, ls), name="MC_Parser_%s_%d" % (ls, n), timeout=6000, workers=8)
+                        for ls, n in plan], parallel=2)
+    for st in sts:
+        path, cnt = run.records(st)
+        run.replay("parse", path, prop="C08", name="parse-" + st["cfg"])
+        run.add_samples(path, 1)
+
+
 @check("C08")
 def c08(run):
+    parser_model(run)
     return lexer_check(run, "C08",
+                       "machine P (spec/TwParser.tla, PlusCal, one procedure per parser function): every sequence of up to 3 "
+                       "(thorough: 4) mode-closed lexemes (text, {{ }} blocks incl. malformed ones, @if/@elseif/@else/@end, "
+                       "@each, @insert, @component, @slot) optionally ended by one of 18 constructs cut in the middle; TLC "
+                       "proves Termination under fairness without a state constraint and checks ProgramOrErrors / "
+                       "PrefixRejected; every input is parsed by the real parser under a watchdog; plus: "
                        "same inputs as C05; lexing and parsing must return, with a program xor recorded errors that carry "
                        "a line; inputs the model ends in an error token (unterminated comment / string, illegal byte in "
                        "code) must be rejected; non-trivial = must-be-rejected inputs")
@@ -238,7 +276,7 @@ def eval_check(run, fams, rule, assumptions=None):
 
 @check("C02")
 def c02(run):
-    fams = ["c02chains", "c02truth"] if run.tier == "quick" else ["c02chains", "c02chains3", "c02truth"]
+    fams = ["c02chains", "c02truth", "c02empty"] if run.tier == "quick" else ["c02chains", "c02chains3", "c02truth", "c02empty"]
     return eval_check(run, fams,
                       "every @if chain shape (0..2 @elseif, with/without @else; thorough: 3 branches and all nesting "
                       "contexts) x every vector of conditions over truthy / falsy / raising expressions of every value "
@@ -249,7 +287,7 @@ def c02(run):
 
 @check("C03")
 def c03(run):
-    return eval_check(run, ["c03each", "c03for", "c03nested"],
+    return eval_check(run, ["c03each", "c03for", "c03nested", "c02empty"],
                       "@each over arrays of length 0..4 (literal and data) printing v and loop.index/iter/first/last, "
                       "with each of 8 jump directives at every position of the body, bare and under nested @if/@else; "
                       "@for with 6 init/condition/step heads; every combination of loop kinds nested with jumps in "
